@@ -16,6 +16,10 @@ trap '[ -n "${RS2V_KEEP:-}" ] || rm -rf "$WORK"' EXIT
 echo "== build rs2v"
 (cd "$HERE" && cargo build --offline --release --quiet)
 
+echo "== translator unit test (\`?\`, value-position if, match arms, shifts, casts)"
+(cd "$HERE" && cargo test --offline --quiet 2>&1 | grep -E "^test result|FAILED|panicked" || true)
+(cd "$HERE" && cargo test --offline --quiet >/dev/null 2>&1) || { echo "FAIL: cargo test"; exit 1; }
+
 echo "== translate $REPO/src"
 mkdir -p "$WORK/Gen"
 cp "$PRELUDE" "$WORK/Gen/Prelude.v"
